@@ -29,7 +29,7 @@
 #define ONE 65536L
 
 #ifdef VH_CBMC
-#define VG_IN_ARRAY(type, name, n) type name[n]
+#define VG_IN_ARRAY(type, name, n) type name[n]; do { int i_; for (i_ = 0; i_ < (int) (n); i_++) name[i_] = nondet_##type (); } while (0)
 #else
 #define VG_IN_ARRAY(type, name, n)                                             \
     type name[n];                                                              \
